@@ -6,9 +6,10 @@
 
 int cmd_sing(const case_t *c);
 int cmd_gssvx(const case_t *c);
+int cmd_kern(const case_t *c);
 
 static const struct { const char *name; cmd_fn fn; } cmds[] = {
-    { "gssv", cmd_gssv }, { "gstrf", cmd_gstrf },
+    { "gssv", cmd_gssv }, { "gstrf", cmd_gstrf }, { "gssvx", cmd_gssvx }, { "kern", cmd_kern },
     { NULL, NULL }
 };
 
